@@ -94,6 +94,15 @@ def d16_instance(est: Any, gt: Any, mode: MatchingMode, oracle_value: float) -> 
     return lib == 0.0
 
 
+def threshold_margin(mode: MatchingMode, s: float, t: float) -> float:
+    """How far the decision "s is better than t" is from flipping. Two decisions against a threshold of exactly 0 are
+    structurally exact, not numerically delicate: no distance is closer than 0, and the IoU of boxes that do not
+    overlap is exactly 0.0, which does not beat 0.0 ("better than" is strict)."""
+    if t == 0.0 and (not MAXIMIZE[mode] or s == 0.0):
+        return float("inf")
+    return abs(s - t)
+
+
 def better(mode: MatchingMode, a: float, b: float) -> bool:
     return a > b if MAXIMIZE[mode] else a < b
 
@@ -142,7 +151,7 @@ class Table:
                 if amb < BOUNDARY:
                     self.near_boundary = True
                 t = self.thr[j]
-                if t is not None and abs(s - t) < BOUNDARY:
+                if t is not None and threshold_margin(mode, s, t) < BOUNDARY:
                     self.near_boundary = True
                 self.ok[i, j] = t is None or better(mode, s, t)
                 self.compat[i, j] = compatible(policy, e, g)
@@ -284,7 +293,7 @@ def judge(ctx: Ctx, a: Dict[str, Any], snap_e, snap_g, results, clauses) -> None
             t = tab.thr[jg]
             s = tab.score[ie, jg]
             if t is not None and not np.isnan(s):
-                if abs(s - t) < BOUNDARY:
+                if threshold_margin(mode, s, t) < BOUNDARY:
                     ctx.count("get_object_results.skipped_boundary")
                 else:
                     ctx.check(better(mode, s, t), "C01/pair_beyond_matchable_radius", info(score=float(s), radius=t, est=O.describe(e), gt=O.describe(g)), tap)
@@ -386,7 +395,7 @@ def gen_matching_case(r: random.Random, max_n: int = 24, force_2d: Optional[bool
     policy = r.choice(list(MatchingLabelPolicy))
     few_labels = r.random() < 0.5
     labs = r.sample(O.ORDINARY, 2) if few_labels else O.ORDINARY
-    kind = r.choice(["none", "none", "per_label", "tiny", "huge"])
+    kind = r.choice(["none", "none", "per_label", "per_label", "tiny", "huge", "zero", "one_zero"])
     fpv = r.random() < 0.2
     case: Dict[str, Any] = {"is2d": is2d, "policy": policy.value, "radius_kind": kind, "fpv": fpv}
 
@@ -492,6 +501,11 @@ def gen_matching_case(r: random.Random, max_n: int = 24, force_2d: Optional[bool
         radii = None
     elif kind == "per_label":
         radii = [round(r.uniform(0.05, 0.9), 3) if iou else round(r.uniform(0.2, 8.0), 3) for _ in target_labels]
+    elif kind == "zero":
+        radii = [0.0 for _ in target_labels]  # distance: nothing is closer than 0; IoU: any overlap at all
+    elif kind == "one_zero":
+        radii = [round(r.uniform(0.05, 0.9), 3) if iou else round(r.uniform(0.2, 8.0), 3) for _ in target_labels]
+        radii[r.randrange(len(radii))] = r.choice([0.0, 0])
     elif kind == "tiny":
         radii = [0.95 if iou else 0.01 for _ in target_labels]
     else:
